@@ -49,6 +49,61 @@ func runC01(r *Run) {
 	// the direct (unguarded) subtractions of the slash path stay non-negative because the applied proportion is
 	// capped at 1: that cap is C04.R1's obligation, repeated here because "no pool is ever negative" depends on it
 	r.rule("C01.R6", "slash path non-negativity: the proportion applied to pools and undelegations is the capped one (C04.R1/R2 obligations)", 3)
+	r.rule("C01.R7", "the published staking total moves only through the non-negativity-checked helper with the requested amount; a native-restaking decrease that reaches the delegated share is spread over its token value", 3)
+	if tv := w.View("x/assets/keeper", "Keeper.UpdateStakingAssetTotalAmount"); tv == nil {
+		r.bad("C01.R7", "anchor|UpdateStakingAssetTotalAmount", "-", "anchor", "not found")
+	} else {
+		r.saw(tv.ID())
+		amt := paramName(tv, 2)
+		okCall, okNoRewrite := false, true
+		for _, c := range tv.CallsNamed("UpdateAssetValue") {
+			if len(c.Args) == 2 && strings.HasSuffix(exprString(c.Args[0]), "StakingTotalAmount") && exprString(c.Args[1]) == "&"+amt {
+				k, _ := tv.failArm(c)
+				okCall = k == "return"
+			}
+		}
+		ast.Inspect(tv.Decl.Body, func(n ast.Node) bool {
+			if as, ok := n.(*ast.AssignStmt); ok {
+				for _, l := range as.Lhs {
+					if exprString(l) == amt {
+						okNoRewrite = false
+					}
+				}
+			}
+			return true
+		})
+		r.check(okCall && okNoRewrite, "C01.R7", "staking-total|checked-and-exact", tv.pos(tv.Decl), "the staking total changes by exactly the requested amount and a decrease below zero is an error", "UpdateStakingAssetTotalAmount does not apply the requested amount through UpdateAssetValue with its error returned (clamping or rewriting the amount makes the total differ from deposits minus withdrawals)")
+	}
+	if nv := w.View("x/delegation/keeper", "Keeper.UpdateNSTBalance"); nv == nil {
+		r.bad("C01.R7", "anchor|UpdateNSTBalance", "-", "anchor", "not found")
+	} else {
+		// slashProportion = pending / <token value of the staker's shares>
+		okDen, okGuard := false, false
+		ast.Inspect(nv.Decl.Body, func(n ast.Node) bool {
+			as, ok := n.(*ast.AssignStmt)
+			if !ok || len(as.Lhs) != 1 || len(as.Rhs) != 1 || !strings.Contains(strings.ToLower(exprString(as.Lhs[0])), "proportion") {
+				return true
+			}
+			_, nm, args, isM := methodCall(as.Rhs[0])
+			if !isM || nm != "Quo" || len(args) != 1 {
+				return true
+			}
+			ast.Inspect(args[0], func(m ast.Node) bool {
+				if id, isID := m.(*ast.Ident); isID && nv.objOf(id) != nil && resolvesToCallV(nv, id, "TotalDelegatedAmountForStakerAsset") {
+					okDen = true
+					for _, f := range nv.FactsAt(as, false) {
+						if o := nv.outcome(f); o != nil && o.Callee.Name() == "IsZero" && !o.Success && nv.objOf(rootIdent(o.Call.Fun)) == nv.objOf(id) {
+							okGuard = true
+						}
+					}
+				}
+				return true
+			})
+			return true
+		})
+		r.check(okDen, "C01.R7", "nst|proportion-over-share-value", nv.pos(nv.Decl), "the part of a balance decrease that reaches the delegated share is divided by the current token value of the staker's shares", "UpdateNSTBalance does not divide by TotalDelegatedAmountForStakerAsset(staker, asset): a figure derived from the staker's deposit record is stale after an operator slash and the decrease is only partly taken out")
+		r.check(okGuard, "C01.R7", "nst|proportion-divisor-nonzero", nv.pos(nv.Decl), "the division is skipped when nothing is delegated", "the proportion is computed without a !IsZero() test of the divisor")
+	}
 	if r.Prop == "C01" {
 		sub := NewRun(r.W, "C04", r.Tier, r.Seed)
 		runC04(sub)
